@@ -38,7 +38,7 @@ def jobs(tier, seed):
 def make_problem(rng):
     d = int(rng.choice([1, 1, 2, 2, 3, 4]))
     n = int(rng.choice([2, 3, 5, 8, 13, 20, 30, 40]))
-    spec = G.fix_axes(G.random_spec(rng), rng, d)
+    spec = G.fix_axes(G.random_spec(rng, cp_noise=True), rng, d)
     far = bool(rng.random() < 0.12) and G.count_cp_kernels(spec) == 0   # training inputs far from the origin (time-stamps ...)
     x = G.random_points(rng, n, d, far=far)
     y_scale = 10.0 ** rng.uniform(-2, 2)
@@ -54,6 +54,8 @@ def make_problem(rng):
         y = np.rint(y)
     theta_c = G.random_theta(spec, rng, x, y_scale)
     mean_name = str(rng.choice(G.MEANS))
+    if rng.random() < 0.2:
+        mean_name = str(rng.choice(["UserDecay", "UserBump"]))   # mean functions written by the user against the documented base class
     if far:
         # a linear / quadratic trend about the centroid of inputs near 1e7 carries the rounding of the centroid itself (eps*abs(x)/extent relative):
         # that is arithmetic, not the library; the far case is about the covariance path
